@@ -295,6 +295,8 @@ def one_case(ctx, r, lines, checks, big=False, directed=None, given_modes=None):
     # --- HigherOrderComposite
     if r.random() < .35 and len(pvars) + 2 * len(cons_o) <= 12:
         hoc_case(ctx, r, vt, raw, rawf, poly, pnorm, pvars, src0)
+    if r.random() < (.5 if ctx.quick else .25) and pvars:
+        hoc_options_case(ctx, r, vt, raw, rawf, pnorm, pvars, src0, raw_text, lines, checks)
 
 
 GEXTRA = ['g', 'h', 7]
@@ -376,7 +378,7 @@ def given_bqm_case(ctx, r, vt, raw, rawf, pnorm, pvars, src0, raw_text, lines, c
     dom = (0, 1) if vt == 'BINARY' else (-1, 1)
     allv = sorted(set(pvars) | set(gv), key=repr)
     c = coef(res)
-    if not bad and len(allv) + len(auxs) <= ctx.scale(11, 13):
+    if not bad and len(allv) + len(auxs) <= 11:
         for tv in itertools.product(dom, repeat=len(allv)):
             x0 = dict(zip(allv, tv))
             y = {v: conv_value(t, vt, gvt) for v, t in x0.items()}
@@ -496,6 +498,145 @@ def given_cqm_case(ctx, r, vt, raw, rawf, pnorm, pvars, src0, raw_text, adversar
                 ctx.fail('property', site, cls + ': objective on a feasible assignment',
                          f'{raw!r} as {vt} onto objective lin {lin!r} quad {quad!r} offset {off} ({decl!r}): at {x!r} objective {cqm.objective.energy(x)}, polynomial + given objective = {want}', repro=src)
                 return
+
+
+def hoc_rows(bqm, dom, nrows, rseed):
+    """rows for the child sampler: random values; half of them made consistent with every product of the
+    reduction, and of those some with exactly one product (not the last one when there are several) broken again"""
+    import random
+    rr = random.Random(rseed)
+    labels = list(bqm.variables)
+    red = list(bqm.info["reduction"].items())
+    rows = []
+    for _ in range(nrows):
+        row = {v: rr.choice(dom) for v in labels}
+        if red and rr.random() < .6:
+            for (u, v), d in red:
+                row[d["product"]] = row[u] * row[v]
+            if rr.random() < .4:
+                (u, v), d = red[rr.randrange(max(1, len(red) - 1))]
+                row[d["product"]] = [x for x in dom if x != row[u] * row[v]][0]
+        rows.append(row)
+    return rows
+
+
+class FixedChild(dimod.Sampler):
+    """a child sampler that returns the rows it is told to and remembers what it was called with"""
+    parameters = {'initial_state': []}
+    properties = {}
+
+    def __init__(self, pick):
+        self.pick = pick; self.kw = None; self.bqm = None; self.rows = None
+
+    def sample(self, bqm, **kw):
+        self.kw = kw; self.bqm = bqm
+        labels = list(bqm.variables)
+        self.rows = self.pick(bqm)
+        arr = np.array([[row[v] for v in labels] for row in self.rows], dtype=np.int8).reshape(len(self.rows), len(labels))
+        return dimod.SampleSet.from_samples_bqm((arr, labels), bqm)
+
+
+def hoc_options_case(ctx, r, vt, raw, rawf, pnorm, pvars, src0, raw_text, lines, checks):
+    """`HigherOrderComposite.sample_poly` over its option grid with a child that returns chosen rows (consistent and
+    inconsistent ones): which rows are kept, their columns, energies, `penalty_satisfaction`, and the
+    `initial_state` handed to the child"""
+    site = 'HigherOrderComposite.sample_poly'
+    dom = (0, 1) if vt == 'BINARY' else (-1, 1)
+    strength = r.choice([F(1, 2), F(1), F(2), F(3)])
+    keep = r.random() < .5; discard = r.random() < .5
+    use_init = r.random() < .5
+    init = {v: r.choice(dom) for v in pvars} if use_init else None
+    nrows = r.randint(0, 6)
+    rseed = r.randrange(2 ** 31)
+
+    def pick(bqm, rseed=rseed, nrows=nrows):
+        return hoc_rows(bqm, dom, nrows, rseed)
+    cls = f"keep={int(keep)} discard={int(discard)} initial_state={'given' if use_init else 'omitted'}"
+    import inspect
+    src = (src0 + 'import random, numpy as np\n' + inspect.getsource(hoc_rows) + f'strength, keep, discard, init, nrows, rseed = {float(strength)!r}, {keep}, {discard}, {init!r}, {nrows}, {rseed}\n'
+           'class Child(dimod.Sampler):\n'
+           '    parameters = {"initial_state": []}; properties = {}\n'
+           '    def sample(self, bqm, **kw):\n'
+           '        self.kw, self.bqm = kw, bqm; labels = list(bqm.variables)\n'
+           '        self.rows = hoc_rows(bqm, dom, nrows, rseed)\n'
+           '        arr = np.array([[row[v] for v in labels] for row in self.rows], dtype=np.int8).reshape(len(self.rows), len(labels))\n'
+           '        return dimod.SampleSet.from_samples_bqm((arr, labels), bqm)\n'
+           'child = Child()\nkw = dict(initial_state=init) if init is not None else {}\n'
+           'ss = dimod.HigherOrderComposite(child).sample_poly(poly, penalty_strength=strength, keep_penalty_variables=keep, discard_unsatisfied=discard, **kw)\n'
+           'red = child.bqm.info["reduction"]\n'
+           'ok = lambda row: all(row[u] * row[v] == row[d["product"]] for (u, v), d in red.items())\n'
+           'kept = [row for row in child.rows if ok(row) or not discard]\n'
+           'out = list(ss.data(["sample", "energy", "penalty_satisfaction"], sorted_by=None))\n'
+           'assert len(out) == len(kept), ("rows kept", len(out), len(kept))\n'
+           'cols = set(child.bqm.variables) if keep else set(vs)\n'
+           'for row, (smp, e, sat) in zip(kept, out):\n'
+           '    assert dict(smp) == {v: row[v] for v in cols}, ("columns / values", dict(smp), row)\n'
+           '    assert F(float(e)) == pe(P, row), ("energy", e, pe(P, row))\n'
+           '    assert bool(sat) == (True if discard else ok(row)), ("penalty_satisfaction", sat, ok(row))\n'
+           'if init is not None:\n'
+           '    st = child.kw["initial_state"]\n'
+           '    assert all(st[v] == init[v] for v in init) and all(st[u] * st[v] == st[d["product"]] for (u, v), d in red.items()), st\n'
+           '    auxs = [d["auxiliary"] for d in red.values() if "auxiliary" in d]\n'
+           '    en = lambda x: F(child.bqm.offset) + sum(F(child.bqm.get_linear(v))*x[v] for v in child.bqm.variables) + sum(F(q)*x[u]*x[v] for u, v, q in child.bqm.iter_quadratic())\n'
+           '    assert en(st) == min(en({**st, **dict(zip(auxs, a))}) for a in itertools.product(dom, repeat=len(auxs))), "auxiliaries of the initial state do not minimise the energy"\n')
+    child = FixedChild(pick)
+    poly = BinaryPolynomial(rawf, vt)
+    kw = dict(initial_state=init) if init is not None else {}
+    try:
+        with warnings.catch_warnings():
+            warnings.simplefilter('ignore')
+            ss = dimod.HigherOrderComposite(child).sample_poly(poly, penalty_strength=float(strength), keep_penalty_variables=keep, discard_unsatisfied=discard, **kw)
+    except Exception as e:  # noqa
+        ctx.fail('property', site, cls + ': raises', f'{type(e).__name__}: {e} on {raw!r}', repro=src)
+        return
+    red = child.bqm.info['reduction']
+    cons_q = [((u, v), d['product']) for (u, v), d in red.items()]
+    auxs = [d['auxiliary'] for d in red.values() if 'auxiliary' in d]
+    ok = lambda row: all(row[u] * row[v] == row[p] for (u, v), p in cons_q)   # noqa: E731
+    kept = [row for row in child.rows if ok(row) or not discard]
+    out = list(ss.data(['sample', 'energy', 'penalty_satisfaction'], sorted_by=None))
+    ctx.tick(f'hoc:options:{cls}'); ctx.case(('hocs', vt, raw_text, strength, keep, discard, repr(init), nrows, rseed), nontrivial=bool(cons_q) and nrows > 0)
+    bad = False
+    if len(out) != len(kept):
+        bad = True
+        ctx.fail('property', site, 'rows kept (discard_unsatisfied)', f'{raw!r} {cls}: the child returned {len(child.rows)} rows, {len(kept)} of them '
+                 f'{"satisfy every product constraint" if discard else "must be kept"}, {len(out)} were returned; reduction {cons_q!r} rows {child.rows!r}', repro=src)
+    cols = set(child.bqm.variables) if keep else set(pvars)
+    if not bad:
+        for row, (smp, e, sat) in zip(kept, out):
+            want_sat = True if discard else ok(row)
+            if dict(smp) != {v: row[v] for v in cols}:
+                bad = True
+                ctx.fail('property', site, 'returned columns', f'{raw!r} {cls}: row {row!r} returned as {dict(smp)!r}', repro=src); break
+            if fr(e) != pe(pnorm, row):
+                bad = True
+                ctx.fail('property', site, 'energy of a returned row', f'{raw!r} {cls}: row {row!r} energy {e}, polynomial {pe(pnorm, row)}', repro=src); break
+            if bool(sat) != want_sat:
+                bad = True
+                ctx.fail('property', site, 'penalty_satisfaction', f'{raw!r} {cls}: row {row!r} flagged {bool(sat)}, products {cons_q!r} all hold: {ok(row)}', repro=src); break
+    handed = '-'
+    if init is not None and not bad:
+        st = child.kw.get('initial_state')
+        c = coef(child.bqm)
+        if st is None or any(st.get(v) != init[v] for v in init) or not all(st[u] * st[v] == st[p] for (u, v), p in cons_q):
+            bad = True
+            ctx.fail('property', site, 'initial_state handed to the child', f'{raw!r}: initial_state {init!r} became {st!r} (reduction {cons_q!r})', repro=src)
+        elif len(auxs) <= 10 and energy(c, st) != min(energy(c, {**st, **dict(zip(auxs, a))}) for a in itertools.product(dom, repeat=len(auxs))):
+            bad = True
+            ctx.fail('property', site, 'initial_state handed to the child', f'{raw!r}: the auxiliaries of {st!r} do not minimise the energy of the quadratic model', repro=src)
+        if st is not None:
+            handed = ','.join(sorted(f'{lab(v)}={rat(int(val))}' for v, val in st.items()))
+    ch = ','.join(f'{lab(u)}~{lab(v)}>{lab(p)}' for (u, v), p in cons_q) or '-'
+    it = ','.join(f'{lab(v)}={rat(val)}' for v, val in init.items()) if init else '-'
+    if init == {}:
+        return                                     # the empty dict and "omitted" are the same protocol word
+    rv = ','.join(lab(v) for v in ss.variables) if False else ','.join(lab(v) for v in child.bqm.variables) or '-'
+    rows_txt = '/'.join(','.join(f'{lab(v)}={rat(val)}' for v, val in row.items()) for row in child.rows) or '-'
+    if any(not row for row in child.rows):
+        return                                     # variable-free model: rows have no text form
+    showrow = lambda smp, e, sat: ','.join(sorted(f'{lab(v)}={rat(int(val))}' for v, val in dict(smp).items())) + f'|{rat(fr(e))}|{int(bool(sat))}'   # noqa: E731
+    lines.append(f'hocs {vt} {raw_text} {ch} {rat(strength)} {int(keep)} {int(discard)} {it} {rv} {rows_txt}')
+    checks.append((site + ' vs Red.samplePoly', cls, f'ok {handed} # ' + '/'.join(showrow(*o) for o in out), src, bad))
 
 
 def hoc_case(ctx, r, vt, raw, rawf, poly, pnorm, pvars, src0):
